@@ -283,6 +283,29 @@ func fwdReplay(args []string) {
 			rep.Sample(map[string]interface{}{"directive": string(ln.F), "model_MakeFormat": string(ln.MF), "justV": ln.JustV})
 		}
 	})
+	// beyond the model's handful of widths and precisions: every value 0..300 and the powers of two / ten around which
+	// tables, small-buffer sizes and digit counts change (the specification treats the number as a number)
+	var ns []int
+	for n := 0; n <= 300; n++ {
+		ns = append(ns, n)
+	}
+	ns = append(ns, 511, 512, 999, 1000, 1023, 1024, 4095, 4096, 9999, 10000, 65535, 65536, 99999, 100000)
+	var sweep []fwdLine
+	for _, n := range ns {
+		d := strconv.Itoa(n)
+		for _, f := range []string{"%" + d + "d", "%." + d + "d", "%" + d + "." + d + "s", "%-" + d + "v", "%+." + d + "v", "%0" + d + "x"} {
+			sweep = append(sweep, fwdLine{F: lib.B(f), V: int(f[len(f)-1])})
+		}
+	}
+	lib.Parallel(runtime.NumCPU(), func(emit func([]byte)) {
+		for i := range sweep {
+			emit([]byte(strconv.Itoa(i)))
+		}
+	}, func(raw []byte) {
+		i, _ := strconv.Atoi(string(raw))
+		judgeFwd(rep, sweep[i], false)
+	})
+	rep.Count("width_precision_sweep_directives", len(sweep))
 	rep.Finish()
 }
 
